@@ -60,7 +60,7 @@ def parseCfg (hex : String) : Cfg :=
   | some txt => (txt.splitOn "\n").foldl applyCfgLine {}
 
 def tokDump (t : Tok) : String :=
-  s!"{t.type.str}:{hexEncode t.lit}:{t.line}:{t.endLine}:{t.startChar}:{t.endChar}:{t.startUtf8}:{t.endUtf8}"
+  s!"{t.type.str}/{hexEncode t.lit}/{t.line}/{t.endLine}/{t.startChar}/{t.endChar}/{t.startUtf8}/{t.endUtf8}"
 
 /-- Keep one token of the final run of identical EOF tokens (see harness `lexCase`). -/
 def trimFinalRun (ts : List Tok) : List Tok :=
@@ -76,37 +76,41 @@ def resultLine : Result → String
   | .outOfFuel w => "FUEL " ++ w
   | .panic w => "PANIC " ++ hexEncode w
 
-def processLine (line : String) : String :=
+def processLine (cache : String × Cfg) (line : String) : String × (String × Cfg) :=
+  let getCfg (hc : String) : Cfg × (String × Cfg) :=
+    if hc == cache.1 then (cache.2, cache) else let c := parseCfg hc; (c, (hc, c))
   match line.splitOn " " with
   | ["LEX", h] =>
     match hexDecode h with
-    | none => "BADINPUT"
-    | some src => "TOKS " ++ ";".intercalate ((trimFinalRun (Lexer.lexAll src.toList)).map tokDump)
+    | none => ("BADINPUT", cache)
+    | some src => ("TOKS " ++ ";".intercalate ((trimFinalRun (Lexer.lexAll src.toList)).map tokDump), cache)
   | ["FMT", hc, ht, mw, ov, hf, nl] =>
     match hexDecode ht, hexDecode hf with
     | some text, some fontID =>
-      let cfg := parseCfg hc
+      let (cfg, cache) := getCfg hc
       match Fmt.formatText cfg.env.fonts text.toList (parseIntD mw) (parseIntD ov) fontID (parseIntD nl) with
-      | .ok out => "OK " ++ hexEncode (String.ofList out)
-      | .error msg => "ERR " ++ hexEncode msg
-    | _, _ => "BADINPUT"
+      | .ok out => ("OK " ++ hexEncode (String.ofList out), cache)
+      | .error msg => ("ERR " ++ hexEncode msg, cache)
+    | _, _ => ("BADINPUT", cache)
   | ["COMPILE", hc, hs] =>
     match hexDecode hs with
-    | none => "BADINPUT"
+    | none => ("BADINPUT", cache)
     | some src =>
-      let cfg := parseCfg hc
-      resultLine (compile cfg.env cfg.opts src.toList)
-  | _ => "BADLINE"
+      let (cfg, cache) := getCfg hc
+      let env := if cfg.env.envErrors then cfg.env else lintEnv cfg.env
+      (resultLine (compile env cfg.opts src.toList), cache)
+  | _ => ("BADLINE", cache)
 
-partial def loop (hIn : IO.FS.Stream) (hOut : IO.FS.Stream) : IO Unit := do
+partial def loop (hIn : IO.FS.Stream) (hOut : IO.FS.Stream) (cache : String × Cfg) : IO Unit := do
   let line ← hIn.getLine
   if line.isEmpty then return ()
   let line := String.ofList ((line.toList.reverse.dropWhile (fun c => c == '\n' || c == '\r')).reverse)
-  hOut.putStrLn (processLine line)
-  loop hIn hOut
+  let (res, cache) := processLine cache line
+  hOut.putStrLn res
+  loop hIn hOut cache
 
 def main : IO Unit := do
   let hIn ← IO.getStdin
   let hOut ← IO.getStdout
-  loop hIn hOut
+  loop hIn hOut ("", {})
   hOut.flush
